@@ -60,7 +60,7 @@ theorem ilti_step_allocTask_other {s : Sys} (hs : SInv s) (h : ILTI s) {pid : Na
           · exact h1
           · rw [h1] at hi; simp at hi
         · exact Or.inl
-      · exact IlTaskK.updTask _ t _ (fun r => ⟨rfl, rfl, rfl, fun _ _ => rfl⟩)
+      · exact IlTaskK.updTask _ t _ (fun r => ⟨rfl, rfl, rfl, fun _ _ => rfl, rfl⟩)
     · rw [heq]
       exact ⟨rfl, rfl, fun _ _ => Iff.rfl, IlTaskK.refl _, ⟨[], by simp, by simp⟩, rfl⟩
     · exfalso
@@ -77,7 +77,7 @@ theorem ilti_step_allocTask_other {s : Sys} (hs : SInv s) (h : ILTI s) {pid : Na
         · intro h1
           refine (List.mem_erase_of_ne ?_).mpr h1
           intro e1; rw [e1] at hi; simp at hi
-      · exact IlTaskK.updTask _ t _ (fun r => ⟨rfl, rfl, rfl, fun _ _ => rfl⟩)
+      · exact IlTaskK.updTask _ t _ (fun r => ⟨rfl, rfl, rfl, fun _ _ => rfl, rfl⟩)
   obtain ⟨k1, k2, k3, k4, k5, k6⟩ := key
   obtain ⟨m1, m3⟩ := il_resume_procs_irrel hpw hp ha orc k5
   have hpnr : p.k.ilRel = false ∧ p.k.isDoWork = false := by rw [hk]; exact ⟨rfl, rfl⟩
@@ -131,7 +131,7 @@ theorem ILTI.base {s s' : Sys} (h : ILTI s) (hobs : s'.obs = s.obs) (htasks : Il
   have ho : ∀ o, s'.obs? o = s.obs? o := il_obs?_congr' hobs
   refine ⟨by rw [hobs]; exact h.durPos, ?_, ?_, ?_, ?_, ?_⟩
   · intro r' hr' o i hid
-    obtain ⟨r, hr, e1, e2, e3, e4⟩ := htasks r' hr' (by rw [hid]; rfl)
+    obtain ⟨r, hr, e1, e2, e3, e4, _⟩ := htasks r' hr' (by rw [hid]; rfl)
     obtain ⟨k1, k2, ob, hob, k3⟩ := h.taskR r hr o i (e1 ▸ hid)
     exact ⟨e2.trans k1, e3.trans k2, ob, by rw [ho]; exact hob, (e4 k1 k2).trans k3⟩
   · intro q hq o tl hqk hpc
@@ -177,7 +177,8 @@ theorem ilti_step_allocTask_ing {s : Sys} (hs : SInv s) (h : ILTI s) {pid : Nat}
           (fin (s.block p orc).2.1 (s.block p orc).2.2 p.wake p).wake ≤ r.wake + 1 ∧
           ∃ ph tot, r.k = .doWork t m [] ph tot ∧ (r.alive = true → ph = 0 ∨ 2 ≤ ph) ∧
             ∃ ob a b, s.obs? o = some ob ∧ ob.ast = some a ∧ r.wake = ((b : Nat) : Time) ∧
-              (r.alive = true → ph = 0 → b = a) ∧ b + 1 ≤ a + ob.duration)
+              (r.alive = true → ph = 0 → b = a) ∧ b + 1 ≤ a + ob.duration ∧
+              ∃ c : Nat, (fin (s.block p orc).2.1 (s.block p orc).2.2 p.wake p).wake = (c : Time))
       (hentP : ∀ e ∈ (s.resume pid orc).1.cl.pending, e ∈ s.cl.pending ∧ e ≠ ⟨t, m, obs, true⟩)
       (hentR : ∀ e ∈ (s.resume pid orc).1.cl.runOn, e.ing = true →
         (e ∈ s.cl.runOn ∧ e ≠ ⟨t, m, obs, true⟩) ∨
@@ -185,7 +186,7 @@ theorem ilti_step_allocTask_ing {s : Sys} (hs : SInv s) (h : ILTI s) {pid : Nat}
       (hstaleP : ∀ o, obs = some o → (⟨t, m, obs, true⟩ : RunEntry) ∈ (s.resume pid orc).1.cl.ilEntries →
         o ∉ ilLiveAI s.procs → ∃ q ∈ s.procs, q.pid ≠ pid ∧ q.alive = true ∧ 1 ≤ q.pc ∧
           (∃ preds1 ret1, q.k = .allocTask t m preds1 (some o) true ret1 ∧
-            ∀ r ∈ s.procs, r.pid = ret1 → r.alive = false) ∧
+            ∀ r ∈ s.procs, r.pid = ret1 → r.alive = false ∧ r.wake + 1 ≤ q.wake) ∧
           ∀ t' ∈ s.procs, t'.k = .telescope → t'.alive = true → q.wake < t'.wake),
       ILTI (s.resume pid orc).1 := by
     intro hobs htasks hnewk hk' hatRunP hentP hentR hstaleP
@@ -229,7 +230,7 @@ theorem ilti_step_allocTask_ing {s : Sys} (hs : SInv s) (h : ILTI s) {pid : Nat}
         rcases hrel q' hq' (by rw [hqk]; rfl) with rfl | hh
         · rw [hp'k] at hqk; exact absurd hqk (by simp)
         · exact hh.1)
-    refine ⟨b1, b2, b3, b4, b4', b5, ?_, ?_, ?_, ?_, ?_⟩
+    refine ⟨b1, b2, b3, b4, b4', b5, ?_, ?_, ?_, ?_, ?_, ?_⟩
     · -- allocation processes before their first block
       intro q hq hqa hqc t1 m1' preds1 o ret1 hqk
       rcases hrel q hq (by rw [hqk]; rfl) with rfl | hh
@@ -249,6 +250,14 @@ theorem ilti_step_allocTask_ing {s : Sys} (hs : SInv s) (h : ILTI s) {pid : Nat}
           h.atRun q hh.1 hqa hqc t1 m1' preds1 o ret1 hqk
         refine ⟨h1, r, hold r hr (hne_of r hr ?_), hrp, hw, ph, tot, hrk, hph, ob, a, b, by rw [ho]; exact hob, rest⟩
         intro e; rw [hrk, hk] at e; exact absurd e (by simp)
+    · -- F13: recorded finishes of ingest tasks
+      intro r' hr' hi f hf
+      obtain ⟨r, hr, e1, _, _, _, e5⟩ := htasks r' hr' hi
+      obtain ⟨d, hd, hda, hfd, m', preds', ph', tot', hdk⟩ := h.aftI r hr (e1 ▸ hi) f (e5 ▸ hf)
+      refine ⟨d, hold d hd ?_, hda, hfd, m', preds', ph', tot', by rw [e1]; exact hdk⟩
+      intro e
+      have : d = p := hpw.eq_of_pid hd hpm (e.trans hpid.symm)
+      rw [this, ha] at hda; exact absurd hda (by simp)
     · -- the ghost list of processes before their first block
       intro e he
       obtain ⟨he1, hne⟩ := hentP e he
@@ -309,7 +318,7 @@ theorem ilti_step_allocTask_ing {s : Sys} (hs : SInv s) (h : ILTI s) {pid : Nat}
       -- the old witness, which is not the process that ran
       have hwit : ∃ q ∈ s.procs, q.pid ≠ pid ∧ q.alive = true ∧ 1 ≤ q.pc ∧
           (∃ preds1 ret1, q.k = .allocTask e.task e.mach preds1 (some o) true ret1 ∧
-            ∀ r ∈ s.procs, r.pid = ret1 → r.alive = false) ∧
+            ∀ r ∈ s.procs, r.pid = ret1 → r.alive = false ∧ r.wake + 1 ≤ q.wake) ∧
           ∀ t' ∈ s.procs, t'.k = .telescope → t'.alive = true → q.wake < t'.wake := by
         rcases hcase with hne | heq
         · obtain ⟨q, hq, hqa, hqc, ⟨preds1, ret1, hqk, hdead⟩, hlt⟩ := h.stale e heo1 o heo hno'
@@ -335,7 +344,7 @@ theorem ilti_step_allocTask_ing {s : Sys} (hs : SInv s) (h : ILTI s) {pid : Nat}
       · intro r' hr' hrp
         rcases m1 r' hr' with rfl | ⟨hh, _⟩ | ⟨_, hge⟩
         · exfalso
-          have := hdead p hpm (by simpa [hpid] using hrp)
+          have := (hdead p hpm (by simpa [hpid] using hrp)).1
           rw [this] at ha; exact absurd ha (by simp)
         · exact hdead r' hh hrp
         · exfalso
@@ -366,7 +375,7 @@ theorem ilti_step_allocTask_ing {s : Sys} (hs : SInv s) (h : ILTI s) {pid : Nat}
     have hbp : (s.block p orc).1.procs = s.procs ++ [{ pid := s.nextPid, k := .doWork t m preds 0 0, wake := p.wake }] := by
       rw [hb, heq]; rfl
     apply common f1
-    · rw [f3]; exact IlTaskK.updTask _ t _ (fun r => ⟨rfl, rfl, rfl, fun _ _ => rfl⟩)
+    · rw [f3]; exact IlTaskK.updTask _ t _ (fun r => ⟨rfl, rfl, rfl, fun _ _ => rfl, rfl⟩)
     · exact ⟨_, hbp, by simp [PK.ilRel]⟩
     · exact ⟨_, hbk⟩
     · intro _ o ret' hobs hkk
@@ -383,9 +392,11 @@ theorem ilti_step_allocTask_ing {s : Sys} (hs : SInv s) (h : ILTI s) {pid : Nat}
           by rw [hbp]; simp, ?_⟩
         have := hpw.lt p hpm
         rw [if_neg (by simp; omega)]
-      refine ⟨hi, _, hrin, rfl, ?_, 0, 0, rfl, fun _ => Or.inl rfl, ob, a, a, hob, hast, hw, fun _ _ => rfl, by omega⟩
-      rw [hby, il_fin_wake_timeout]
-      exact Rat.le_refl
+      refine ⟨hi, _, hrin, rfl, ?_, 0, 0, rfl, fun _ => Or.inl rfl, ob, a, a, hob, hast, hw, fun _ _ => rfl, by omega,
+        a + 1, ?_⟩
+      · rw [hby, il_fin_wake_timeout]
+        exact Rat.le_refl
+      · rw [hby, il_fin_wake_timeout, hw]; simp
     · intro e he
       rw [f2] at he
       have he' : e ∈ s.cl.pending.erase ⟨t, m, obs, true⟩ := by
@@ -421,13 +432,43 @@ theorem ilti_step_allocTask_ing {s : Sys} (hs : SInv s) (h : ILTI s) {pid : Nat}
     have hbk : (s.block p orc).2.1 = .allocTask t m preds obs true ret := by rw [hb, heq]
     have hby : (s.block p orc).2.2 = .timeout 1 := by rw [hb, heq]
     have hbp : (s.block p orc).1.procs = s.procs := by rw [hb, heq]
-    -- the body, alive
-    have hbody : ∀ r ∈ s.procs, r.pid = ret → r.alive = true := by
-      intro r hr hrp
-      have : s.proc? ret = some r := by rw [← hrp]; exact hpw.proc?_of_mem hr
-      unfold procTriggered at htr
-      rw [this] at htr
-      simpa using htr
+    -- F13: the body is alive, or it has ended and the finish it recorded is still ahead
+    have hbody : ∀ o, obs = some o → ∀ r ∈ s.procs, r.pid = ret →
+        p.wake ≤ r.wake ∧ ¬ (r.alive = false ∧ r.wake + 1 ≤ p.wake) := by
+      intro o hobs r hr hrp
+      have hpr : s.proc? ret = some r := by rw [← hrp]; exact hpw.proc?_of_mem hr
+      cases htr1 : s.procTriggered ret with
+      | false =>
+        have hra : r.alive = true := by
+          unfold procTriggered at htr1
+          rw [hpr] at htr1
+          simpa using htr1
+        exact ⟨hmin r hr hra, fun hh => by rw [hra] at hh; exact absurd hh.1 (by simp)⟩
+      | true =>
+        rw [htr1, Bool.true_and] at htr
+        obtain ⟨rec, f, hrec, hf, hlt⟩ := aftReached_eq_false htr
+        obtain ⟨hrecm, hrecid⟩ := il_task?_mem hrec
+        subst hobs
+        obtain ⟨⟨i, hti⟩, r0, hr0m, hr0p, _, ph, tot, hr0k, _, ob, a, b, _, _, hr0w, _, _, c, hc⟩ :=
+          h.atRun p hpm ha hpc t m preds o ret hk
+        have : r0 = r := hpw.eq_of_pid hr0m hr (hr0p.trans hrp.symm)
+        subst this
+        obtain ⟨d, hd, hda, hfd, m', preds', ph', tot', hdk⟩ :=
+          h.aftI rec hrecm (by rw [hrecid, hti]; rfl) f hf
+        rw [hrecid] at hdk
+        have : d = r0 := hpw.eq_of_pid hd hr0m (hs.dg.dwUniq d hd r0 hr0m _ _ _ _ _ _ _ _ _ hdk hr0k)
+        subst this
+        rw [hfd, hr0w, hc] at hlt
+        have hcb : c ≤ b := by
+          have : ((c : Nat) : Time) < ((b + 1 : Nat) : Time) := by simpa using hlt
+          have := Rat.natCast_lt_natCast.mp this
+          omega
+        refine ⟨by rw [hc, hr0w]; exact Rat.natCast_le_natCast.mpr hcb, fun hh => ?_⟩
+        have h2 := hh.2
+        rw [hr0w, hc] at h2
+        have : ((b + 1 : Nat) : Time) ≤ ((c : Nat) : Time) := by simpa using h2
+        have := Rat.natCast_le_natCast.mp this
+        omega
     apply common f1
     · rw [f3]; exact IlTaskK.refl _
     · exact ⟨[], by rw [hbp]; simp, by simp⟩
@@ -435,18 +476,21 @@ theorem ilti_step_allocTask_ing {s : Sys} (hs : SInv s) (h : ILTI s) {pid : Nat}
     · intro _ o ret' hobs hkk
       rw [hbk] at hkk
       injection hkk with _ _ _ _ _ e6
-      subst e6 hobs
-      obtain ⟨hi, r, hrm, hrp, hw, ph, tot, hrk, hph, ob, a, b, hob, rest⟩ :=
+      subst e6
+      have hbd := hbody o hobs
+      subst hobs
+      obtain ⟨hi, r, hrm, hrp, hw, ph, tot, hrk, hph, ob, a, b, hob, hast, hrw, hb0, hbd', c, hc⟩ :=
         h.atRun p hpm ha hpc t m preds o ret hk
-      have hra := hbody r hrm hrp
       have hrne : r.pid ≠ pid := by
         intro e
         have : r = p := hpw.eq_of_pid hrm hpm (e.trans hpid.symm)
         rw [this, hk] at hrk; exact absurd hrk (by simp)
-      refine ⟨hi, r, (il_resume_procs_mem hpw hp ha orc).2.2 r hrm hrne, hrp, ?_, ph, tot, hrk, hph, ob, a, b, hob, rest⟩
-      rw [hby, il_fin_wake_timeout]
-      have := hmin r hrm hra
-      grind
+      refine ⟨hi, r, (il_resume_procs_mem hpw hp ha orc).2.2 r hrm hrne, hrp, ?_, ph, tot, hrk, hph, ob, a, b, hob,
+        hast, hrw, hb0, hbd', c + 1, ?_⟩
+      · rw [hby, il_fin_wake_timeout]
+        have := (hbd r hrm hrp).1
+        grind
+      · rw [hby, il_fin_wake_timeout, hc]; simp
     · intro e he
       rw [f2] at he
       refine ⟨he, ?_⟩
@@ -457,9 +501,10 @@ theorem ilti_step_allocTask_ing {s : Sys} (hs : SInv s) (h : ILTI s) {pid : Nat}
       by_cases e1 : e = ⟨t, m, obs, true⟩
       · exact Or.inr ⟨e1, by rw [hby]; exact ha⟩
       · exact Or.inl ⟨he, e1⟩
-    · -- not stale: the body of a stale allocation process is dead
+    · -- not stale: the body of a stale allocation process is dead, and its recorded finish reached
       intro o hobs _ hno
       exfalso
+      have hbd := hbody o hobs
       subst hobs
       obtain ⟨q, hq, hqa, hqc, ⟨preds1, ret1, hqk, hdead⟩, _⟩ :=
         h.stale _ (mem_ilEntries.mpr (Or.inr ⟨hin0, rfl⟩)) o rfl hno
@@ -470,9 +515,7 @@ theorem ilti_step_allocTask_ing {s : Sys} (hs : SInv s) (h : ILTI s) {pid : Nat}
       injection hqk with _ _ _ _ _ e6
       subst e6
       obtain ⟨_, r, hrm, hrp, _⟩ := h.atRun q hpm ha hpc t m preds o ret hk
-      have := hbody r hrm hrp
-      rw [hdead r hrm hrp] at this
-      exact absurd this (by simp)
+      exact (hbd r hrm hrp).2 (hdead r hrm hrp)
   · exfalso
     have := (hU.atEnd hpw hpm ha hk hr (fin p.k .done p.wake) (by simp) (by simp) (by simp)).1
     rw [this] at he; exact absurd he (by simp)
@@ -484,7 +527,7 @@ theorem ilti_step_allocTask_ing {s : Sys} (hs : SInv s) (h : ILTI s) {pid : Nat}
     have hby : (s.block p orc).2.2 = .done := by rw [hb, heq]
     have hbp : (s.block p orc).1.procs = s.procs := by rw [hb, heq]; rfl
     apply common f1
-    · rw [f3]; exact IlTaskK.updTask _ t _ (fun r => ⟨rfl, rfl, rfl, fun _ _ => rfl⟩)
+    · rw [f3]; exact IlTaskK.updTask _ t _ (fun r => ⟨rfl, rfl, rfl, fun _ _ => rfl, rfl⟩)
     · exact ⟨[], by rw [hbp]; simp, by simp⟩
     · exact ⟨_, hbk⟩
     · intro hal; rw [hby] at hal; exact absurd hal (by simp)
